@@ -417,6 +417,9 @@ func runC03(w *World, rng *rand.Rand, div int) {
 	if div < 1 {
 		div = 1
 	}
+	if useUni {
+		faultKinds = append(faultKinds, "fallback") // the store gives up async commit / 1PC for one prewrite
+	}
 	cnt := 0
 	defer func() { victimMode = cmode{"2pc", false, false} }()
 	for _, cm := range cmodes() {
@@ -439,36 +442,50 @@ func runC03(w *World, rng *rand.Rand, div int) {
 					})
 					w.recoverAll(r)
 					type script struct {
-						i1 int
-						f1 string
-						i2 int
-						f2 string
+						i1   int
+						f1   string
+						i2   int
+						f2   string
+						must bool // not subject to sampling
 					}
 					var scripts []script
 					for i := 0; i < n; i++ {
 						for _, f := range faultKinds {
-							scripts = append(scripts, script{i, f, -1, ""})
+							scripts = append(scripts, script{i1: i, f1: f, i2: -1})
 						}
 					}
 					// the store carried a prewrite out but calls the result undetermined; when the committer starts to clean up, another
 					// client resolves the transaction's locks and dies half-way (i2 = -2: at the victim's first BatchRollback)
 					for i := 0; i < n; i++ {
 						if isPrewrite[i] {
-							scripts = append(scripts, script{i, "undetermined", -2, "resolver_dies"})
+							scripts = append(scripts, script{i1: i, f1: "undetermined", i2: -2, f2: "resolver_dies"})
+						}
+					}
+					// async commit / 1PC: the prewrites are the commit point. What happens to each of them - answer lost, result undetermined,
+					// the store falling back to an ordinary lock - is always run, on the single-region and the most split layout
+					if (cm.async || cm.onepc) && (len(lay) == 0 || len(lay) == 3) {
+						for i := 0; i < n; i++ {
+							if isPrewrite[i] {
+								for _, f := range []string{"drop_resp", "undetermined", "fallback"} {
+									scripts = append(scripts, script{i1: i, f1: f, i2: -1, must: true})
+								}
+								// the store falls back, and a resolver forces expiry when the committer sends its first Commit (i2 = -3)
+								scripts = append(scripts, script{i1: i, f1: "fallback", i2: -3, f2: "resolver_dies", must: true})
+							}
 						}
 					}
 					// doubles: sampled
 					for d := 0; d < n*2; d++ {
 						i1, i2 := rng.Intn(n), rng.Intn(n+2)
-						scripts = append(scripts, script{i1, faultKinds[rng.Intn(len(faultKinds))], i2, faultKinds[rng.Intn(len(faultKinds))]})
+						scripts = append(scripts, script{i1: i1, f1: faultKinds[rng.Intn(len(faultKinds))], i2: i2, f2: faultKinds[rng.Intn(len(faultKinds))]})
 					}
 					for _, sc := range scripts {
 						cnt++
-						if (cnt+int(rng.Int63()%int64(div)))%div != 0 {
+						if !sc.must && (cnt+int(rng.Int63()%int64(div)))%div != 0 {
 							continue
 						}
 						benign := func(f string) bool {
-							return f == "" || f == "not_leader" || f == "epoch_not_match" || f == "server_busy" || f == "stale_command" || f == "split"
+							return f == "" || f == "not_leader" || f == "epoch_not_match" || f == "server_busy" || f == "stale_command" || f == "split" || f == "fallback"
 						}
 						w.reset(M{"kind": "c03", "shape": sh.name, "pess": pess, "i1": sc.i1, "f1": sc.f1, "i2": sc.i2, "f2": sc.f2, "rpcs": n,
 							"lossless": benign(sc.f1) && benign(sc.f2), "cmode": cm.name}, lay)
@@ -489,6 +506,9 @@ func runC03(w *World, rng *rand.Rand, div int) {
 								return faultAction(w, r, sc.f2, "b")
 							}
 							if sc.i2 == -2 && req.Type == tikvrpc.CmdBatchRollback && atomic.CompareAndSwapInt32(&f2, 0, 1) {
+								return faultAction(w, r, sc.f2, "b")
+							}
+							if sc.i2 == -3 && req.Type == tikvrpc.CmdCommit && atomic.CompareAndSwapInt32(&f2, 0, 1) {
 								return faultAction(w, r, sc.f2, "b")
 							}
 							return Action{}
